@@ -60,23 +60,44 @@ def run(repo, chk):
                                'the frame model may only be moved by the allocator functions (or by the paired '
                                'static-size accounting around array-literal elements)', GEN, n.lineno)
     chk.floor('assignments to self.stack', n_assign, 6)
-    for fname in ('reserve_byte', 'reserve_word'):
-        for p in gf.paths(fname):
-            ev = p.events
-            a = [i for i, e in enumerate(ev) if e.kind == 'assign' and e.target == 'self.stack']
-            u = [i for i, e in enumerate(ev) if e.kind == 'call' and e.func == '.update' and e.recv is not None
-                 and src(e.recv) == 'self.checkpoints' and [src(x) for x in e.args] == ['self.stack.static_size']]
-            r = [i for i, e in enumerate(ev) if e.kind == 'return']
-            ok = len(a) == 1 and len(u) == 1 and a[0] < u[0] < r[0]
-            chk.expect(ok, 'C04.A1', f'{fname}::growth recorded', 'self.stack must be advanced and then recorded with '
-                       'checkpoints.update(self.stack.static_size) before the slot accessor is returned', GEN)
-            grow = [src(e.value) for e in ev if e.kind == 'assign' and e.target == 'cur']
-            want = 'prev.add(offset=1)' if fname == 'reserve_byte' else 'prev.add(offset=self.word_size)'
-            chk.expect(grow == [want], 'C04.A1', f'{fname}::size', f'frame grows by {grow}, expected {want}', GEN)
-            rv = src(ev[r[0]].value) if r else ''
-            acc = 'asm.IndirectByte' if fname == 'reserve_byte' else 'asm.Indirect'
-            chk.expect(f'{acc}(asm.Section.STATE, asm.State(self.fp), asm.IntLiteral(-cur.offset))' in rv, 'C04.A1',
-                       f'{fname}::accessor', f'slot accessor must be [fp - cur.offset] in state: {rv[:120]}', GEN)
+    # reserve_byte / reserve_word, interpreted at every word size from several starting frames: the frame model grows by
+    # exactly the slot size, the new static size is reported to the checkpoint tracker before the accessor is handed
+    # out, and the accessor is the new slot [fp - offset] in the state section with the slot's width
+    ns = gf.module_ns()
+    asmv = ns['asm']
+
+    class _Rec:
+        def __init__(self):
+            self.calls = []
+
+        def update(self, v):
+            self.calls.append(v)
+    for fname, width, acc_cls in (('reserve_byte', lambda ws: 1, 'IndirectByte'), ('reserve_word', lambda ws: ws, 'Indirect')):
+        bad = None
+        try:
+            for ws in (2, 3, 4, 8):
+                for start in (0, 1, ws, 3 * ws + 1):
+                    g = object.__new__(ns['CodeGen'])
+                    g.word_size = ws
+                    g.stack = ns['StackPoint']().add(offset=start)
+                    g.checkpoints = _Rec()
+                    before = g.stack
+                    b = getattr(g, fname)()
+                    acc = b.value
+                    ok = g.stack.offset == start + width(ws) and g.checkpoints.calls == [g.stack.static_size] and \
+                        b.prev == before and b.cur == g.stack and type(acc).__name__ == acc_cls and \
+                        acc.section == asmv.Section.STATE and acc.base == asmv.State(ns['CodeGen'].fp) and \
+                        getattr(acc.offset, 'data', None) == -(start + width(ws))
+                    if not ok:
+                        bad = (f'word size {ws}, frame offset {start}: new offset {g.stack.offset} (expected {start + width(ws)}), '
+                               f'tracker told {g.checkpoints.calls} (expected [{g.stack.static_size}]), accessor {acc!r}')
+                        break
+                if bad:
+                    break
+        except Exception as e:      # noqa: BLE001
+            bad = f'{type(e).__name__}: {e}'
+        chk.expect(bad is None, 'C04.A1', f'{fname}::growth recorded', bad or 'self.stack advanced by the slot size, recorded with '
+                   'checkpoints.update(static_size), accessor = [fp - new offset] in state', GEN)
     for p in gf.paths('create_new_stack_array'):
         ev = p.events
         conds = _efg.Conds(ev)
